@@ -473,7 +473,7 @@ pub fn gen_structured(rng: &mut Rng, o: &ProgOpts) -> Built {
                         *rng.pick(&[0, orig - 1, (orig / 2).max(0)])
                     }
                 }
-                _ => *rng.pick(&[0xFE00, 0xFE01, 0xFFFE, 0xFF00]),
+                _ => *rng.pick(&[0xFE00, 0xFE01, 0xFFFE, 0xFF00, 0xFDFF, 0xFDFE, 0xFDFF]),
             };
             b.data.push(st(Some(k.clone()), Stmt::Fill(v)));
             b.m(Stmt::Ld(3, tl(&k)));
